@@ -200,7 +200,7 @@ theorem got_step {s : Node} {c : Nat} {x : Conn} (hx : s.conns[c]? = some x) (e 
   have hlt := idx_lt hx
   have frame : ∀ (hf : match e with
       | .accept _ => True | .request d _ _ => d ≠ c | .leaderMsg d _ _ => d ≠ c | .linkDown d => d ≠ c
-      | .role _ => True | .unattached _ => True | .leader _ => False | .close d => d ≠ c),
+      | .role _ => True | .unattached _ => True | .leader _ => False | .close d => d ≠ c | .closeCut d _ => d ≠ c),
       msgsTo c (step s e).2.client = [] →
       ∃ x', (step s e).1.conns[c]? = some x' ∧ x'.got = x.got ++ msgsTo c (step s e).2.client := by
     intro hf hm; exact ⟨x, step_frame hx e hf, by rw [hm]; simp⟩
@@ -260,6 +260,19 @@ theorem got_step {s : Node} {c : Nat} {x : Conn} (hx : s.conns[c]? = some x) (e 
       exact ⟨x', h1, by simpa using h2⟩
     · exact ⟨x, hx, by simp [msgsTo]⟩
   | close d =>
+    by_cases hd : d = c
+    · subst hd
+      simp only [step, stepClose, hx]
+      repeat' split
+      all_goals first
+        | exact ⟨x, hx, by simp [msgsTo]⟩
+        | (simp only [List.getElem?_set_self hlt]; exact ⟨_, rfl, by simp [msgsTo]⟩)
+    · apply frame hd
+      simp only [step, stepClose]
+      repeat' split
+      all_goals simp [msgsTo]
+
+  | closeCut d k =>
     by_cases hd : d = c
     · subst hd
       simp only [step, stepClose, hx]
@@ -344,6 +357,13 @@ theorem got_step_none {s : Node} {c : Nat} (hx : s.conns[c]? = none) (e : Event)
         simp only [dropAll_length]; exact hge
     · exact ⟨by simp [msgsTo], Or.inl hx⟩
   | close d =>
+    simp only [step, stepClose]
+    repeat' split
+    all_goals first
+      | exact ⟨by simp [msgsTo], Or.inl hx⟩
+      | exact ⟨by simp [msgsTo], Or.inl (setnone _ _)⟩
+
+  | closeCut d k =>
     simp only [step, stepClose]
     repeat' split
     all_goals first
